@@ -1852,6 +1852,10 @@ method or constructor of some type."""
                     param.scope = ast.PARAM_SCOPE_ASYNC
                     param.transfer = ast.PARAM_TRANSFER_NONE
 
+        # Callbacks whose user data was named by a (closure) annotation; the
+        # guess below must not override those.
+        annotated_closures = [param for param in params if param.closure_name is not None]
+
         callback_param = None
         for param in params:
             argnode = self._transformer.lookup_typenode(param.type)
@@ -1871,7 +1875,8 @@ method or constructor of some type."""
                 callback_param.transfer = ast.PARAM_TRANSFER_NONE
             elif (param.type.is_equiv(ast.TYPE_ANY) and
                   param.argname is not None and
-                  param.argname.endswith('data')):
+                  param.argname.endswith('data') and
+                  callback_param not in annotated_closures):
                 callback_param.closure_name = param.argname
 
         for param in params:
